@@ -697,7 +697,7 @@ func runProto(o Opts, mode string) error {
 			wo.Path = workDir(fmt.Sprintf("proto-%s-%d-%d", mode, o.Seed, s))
 		}
 		wo.SegVersion = uint32(1 + rng.Intn(2))
-		wo.Unsafe = rng.Intn(4) == 0
+		wo.Unsafe = rng.Intn(4) == 0 || (mode == "c11" && rng.Intn(3) == 0)
 		wo.Merges = []string{"small", "small", "default", "off"}[rng.Intn(4)]
 		wo.KeepN = 1 + rng.Intn(3)
 		wo.OpDelayUs = []int{0, 100, 800}[rng.Intn(3)]
@@ -724,6 +724,10 @@ func runProto(o Opts, mode string) error {
 				faults = newFaultPlan(rng)
 				if mode != "c14" {
 					faults.sticky = false
+				}
+				if mode == "c11" && rng.Intn(2) == 0 {
+					faults.class = "remove" // refused removals: the clean-up has to keep its books right
+					faults.transient = 2 + rng.Intn(4)
 				}
 				desc["faults"] = faults.describe()
 			}
@@ -861,8 +865,24 @@ func protoScenario(cw *cq.Writer, w *World, rng *rand.Rand, mode string, faults 
 	}
 	n := 4 + rng.Intn(14)
 	var batchErrs int
+	// c11: some runs rewrite every id in every batch (unsafe mode): segments lose all their documents while
+	// the persister is still writing and re-opening them
+	churn := mode == "c11" && w.O.Unsafe && rng.Intn(2) == 0
+	if churn {
+		desc["churn"] = true
+	}
 	for i := 0; i < n; i++ {
 		b := w.GenBatch()
+		if churn {
+			b.Ops = nil
+			for id := 0; id < 2; id++ {
+				w.mu.Lock()
+				v := w.nextV
+				w.nextV++
+				w.mu.Unlock()
+				b.Ops = append(b.Ops, DocOp{Kind: "upd", ID: id, V: v})
+			}
+		}
 		err := w.Do(b, w.O.Unsafe || rng.Intn(3) == 0)
 		if err != nil {
 			batchErrs++
@@ -1108,6 +1128,11 @@ func protoProbes(cw *cq.Writer, w *World, c *pconv, lin *lineage, rng *rand.Rand
 			for v := 0; v < nv; v++ {
 				ch := make([]tornChoice, len(d.fly))
 				for i, f := range d.fly {
+					if f.snp && mode == "c03" && v == 1 {
+						// a snapshot file of which only the first one to four bytes reached the disk
+						ch[i] = tornChoice{Kind: "prefix", Len: 1 + rng.Intn(4)}
+						continue
+					}
 					if f.snp && mode == "c03" && (v == 0 || rng.Intn(3) == 0) && len(f.bytes) > 6 {
 						// the body may still decode while the checksum trailer is cut
 						ch[i] = tornChoice{Kind: "prefix", Len: len(f.bytes) - 1 - rng.Intn(5)}
@@ -1144,7 +1169,7 @@ func protoProbes(cw *cq.Writer, w *World, c *pconv, lin *lineage, rng *rand.Rand
 			}
 			c.addProbe(at, ch, res)
 			// a sample of the images is also materialised on a real file system and reopened in a child process
-			if (pi*7+vi)%fsEvery == 0 {
+			if (pi*7+vi)%fsEvery == 0 || tinySnapshot(d, ch) {
 				cw.Count("crash_images_on_real_fs", 1)
 				cw.OracleEval(1)
 				fsres, status := reopenOnFS(files, fmt.Sprintf("%v-%v-%d-%d", desc["run"], desc["round"], at, vi), w.O.Universe, w.O.SegVersion)
@@ -1349,6 +1374,16 @@ func checkFaultSurfacing(cw *cq.Writer, w *World, c *pconv, desc map[string]inte
 func tailCut(d *mdisk, ch []tornChoice) bool {
 	for i, f := range d.fly {
 		if f.snp && i < len(ch) && ch[i].Kind == "prefix" && ch[i].Len >= len(f.bytes)-5 && ch[i].Len < len(f.bytes) {
+			return true
+		}
+	}
+	return false
+}
+
+// tinySnapshot: some in-flight snapshot is left with fewer than five bytes (shorter than its checksum trailer).
+func tinySnapshot(d *mdisk, ch []tornChoice) bool {
+	for i, f := range d.fly {
+		if f.snp && i < len(ch) && ch[i].Kind == "prefix" && ch[i].Len >= 1 && ch[i].Len <= 4 {
 			return true
 		}
 	}
